@@ -168,3 +168,49 @@ def _(c):
     c.hook("before", "self._subscription.listener.on_partitions_revoked", [
         ("assert", "revocation-reported-after-gate-and-commit", "$gate_closed"),
     ])
+    c.replay_fn = lambda model, ob=None: {"script": _PREPARE_SCRIPT}
+
+
+# replay: the real _on_join_prepare on a real SubscriptionState with an async rebalance listener; at the moment the
+# final commit starts and at the moment on_partitions_revoked begins the hand-out gate must already be closed
+_PREPARE_SCRIPT = '''
+import asyncio, logging
+logging.disable(logging.CRITICAL)
+from aiokafka.consumer.group_coordinator import GroupCoordinator
+from aiokafka.consumer.subscription_state import SubscriptionState
+from aiokafka.abc import ConsumerRebalanceListener
+from aiokafka.structs import TopicPartition
+
+async def main():
+    bad = []
+    for auto_commit in (True, False):
+        subs = SubscriptionState()
+        seen = {}
+        class L(ConsumerRebalanceListener):
+            async def on_partitions_revoked(self, revoked):
+                seen["revoked"] = subs.reassignment_in_progress
+                await asyncio.sleep(0)
+                seen["revoked_after_yield"] = subs.reassignment_in_progress
+            def on_partitions_assigned(self, assigned):
+                pass
+        subs.subscribe({"t"}, listener=L())
+        subs.assign_from_subscribed([TopicPartition("t", 0)])
+        assignment = subs.subscription.assignment
+        class C: pass
+        coord = C()
+        coord._subscription = subs
+        coord._group_subscription = object()
+        coord.group_id = "g"
+        async def last(assignment):
+            seen["commit"] = subs.reassignment_in_progress
+        coord._maybe_do_last_autocommit = last
+        await GroupCoordinator._on_join_prepare(coord, assignment if auto_commit else None)
+        if auto_commit and not seen.get("commit"):
+            bad.append("the final commit before the rebalance was computed while the hand-out gate was still open")
+        if not seen.get("revoked") or not seen.get("revoked_after_yield"):
+            bad.append("on_partitions_revoked began while the hand-out gate (reassignment_in_progress) was still open: "
+                       "a concurrent getmany()/getone() can still return records of the partitions being revoked")
+    return bad
+bad = asyncio.run(main())
+VIOLATED = bool(bad); DETAIL = repr(bad)
+'''
